@@ -3,6 +3,7 @@ package props
 import (
 	"go/token"
 	"go/types"
+	"strings"
 
 	"bifrostverify/an"
 
@@ -341,6 +342,9 @@ func c07(c *an.Check) {
 			an.FuncName(helper) + ": bounds buf[n:]": "the loop body runs only while n < min, and both call sites pass min == len(buf) (EXACTREAD obligation above), so n < len(buf) where buf[n:] is evaluated; n only grows by Read's count, which is at most len(buf[n:])",
 		}})
 	}
+	// (f) the lookup the bus actually performs is the one built for this stream: HandleMountedStream directives that differ
+	// in protocol id, local or remote peer are never merged into one lookup (EQUIV obligations of that directive, as in C37)
+	equivCheck(c, func(f *ssa.Function) bool { return strings.Contains(an.FuncName(f), "link.handleMountedStream") })
 	c.Trust("io.Reader contract: Read returns 0 <= n <= len(p)", "protobuf-go-lite ConsumeVarint/AppendVarint/UnmarshalVT never panic", "unicode/utf8.ValidString")
 }
 
